@@ -470,6 +470,83 @@ def r9_values_recorded_as_written(ctx, rep):
            f"`{ast.unparse(conv[0].node)[:70]}` applies the markdown-metadata conversion to TOML values: `extra_filetypes` given as "
            f"an array of tables reaches ExtraFileType.from_string(<dict>) and loading aborts", py.nloc(conv[0].node) if conv else py.nloc(toml))
 
+
+def r10_normalisations_applied(ctx, rep):
+    """the normalisations written in the conversion code are applied: no statement computes a stripped / lower-cased
+    value and throws it away (generic rule, all modules)"""
+    from . import common
+    common.discarded_results(ctx, rep)
+
+
+def _filtered_by_init(py, fn: ast.FunctionDef) -> bool:
+    """fn returns a table built from dataclasses.fields(...) filtered on `.init`"""
+    for c in ast.walk(fn):
+        if isinstance(c, (ast.DictComp, ast.ListComp, ast.SetComp, ast.GeneratorExp)):
+            for g in c.generators:
+                if "fields(" in ast.unparse(g.iter) and any(re.search(r"\.init\b", ast.unparse(i)) for i in g.ifs):
+                    return True
+    return False
+
+
+def r11_computed_fields_are_not_options(ctx, rep):
+    """a field declared with `field(init=False)` is computed from other options: the tables that decide which keys are
+    options must not contain it (as a key it would pass the unknown-key check and then abort the constructor, or
+    silently overwrite the computed value)"""
+    py = ctx.py
+    computed = []
+    for cname, ci in py.classes.items():
+        if ci.module != "settings":
+            continue
+        for st in ci.node.body:
+            if isinstance(st, ast.AnnAssign) and isinstance(st.value, ast.Call) and call_name(st.value) in ("field", "dataclasses.field") \
+                    and any(k.arg == "init" and isinstance(k.value, ast.Constant) and k.value.value is False for k in st.value.keywords):
+                computed.append(f"{cname}.{st.target.id}")
+    sites = 0
+    for mod in ("settings", "__init__"):
+        for m, fn in py.all_functions():
+            if m != mod:
+                continue
+            for st in ast.walk(fn):
+                if not (isinstance(st, ast.Assign) and len(st.targets) == 1 and isinstance(st.targets[0], ast.Name)
+                        and isinstance(st.value, ast.Call)):
+                    continue
+                tname = st.targets[0].id
+                cn = call_name(st.value)
+                # is the table used to decide whether a key is known?
+                used = [c for c in ast.walk(fn) if (isinstance(c, ast.Compare) and len(c.ops) == 1 and isinstance(c.ops[0], (ast.In, ast.NotIn))
+                                                    and isinstance(c.comparators[0], ast.Name) and c.comparators[0].id == tname)
+                        or (isinstance(c, ast.Subscript) and isinstance(c.value, ast.Name) and c.value.id == tname
+                            and any(isinstance(p, ast.Try) and any("KeyError" in astq.handler_types(h) for h in p.handlers)
+                                    for p in _ancestors(py, c, fn)))]
+                if not used:
+                    continue
+                if cn.split(".")[-1] == "get_type_hints":
+                    filtered = False
+                else:
+                    callee = py.func(f"{mod}.{cn}") if py.has_func(f"{mod}.{cn}") else (py.func(f"settings.{cn}") if py.has_func(f"settings.{cn}") else None)
+                    if callee is None:
+                        continue
+                    if "get_type_hints" not in ast.unparse(callee) and "fields(" not in ast.unparse(callee):
+                        continue
+                    filtered = _filtered_by_init(py, callee)
+                sites += 1
+                ok = filtered or not computed
+                rep.ob(f"{py.qualname(fn)}: known-key table `{tname}` excludes computed fields", ok,
+                       "built from the fields that the constructor accepts" if ok else
+                       f"`{ast.unparse(st.value)[:60]}` also lists {', '.join(computed)} (init=False): the key `{computed[0].split('.')[1]}` "
+                       f"passes the unknown-key check and then aborts with TypeError (or overwrites the computed value)",
+                       py.nloc(st), nontrivial=not ok)
+    if not sites:
+        raise AnalysisError("no known-key table found in settings / __init__")
+
+
+def _ancestors(py, node, stop):
+    p = node
+    while p is not stop and p in py.parents:
+        p = py.parents[p]
+        yield p
+
+
 RULES = [
     RuleSpec("C15.R4", r4_path_rooting, "relative paths are rooted at the project file's directory", floor=2),
     RuleSpec("C15.R8", r8_metadata_grammar, "markdown metadata grammar: key lines vs continuation lines", floor=2),
@@ -479,5 +556,7 @@ RULES = [
     RuleSpec("C15.R5", r5_unknown_keys, "unknown keys are reported, not fatal", floor=1),
     RuleSpec("C15.R6", r6_precedence, "precedence file < --config < CLI", floor=6),
     RuleSpec("C15.R7", r7_schema_only_writes, "only schema fields are written onto the settings object", floor=1),
+    RuleSpec("C15.R10", r10_normalisations_applied, "no computed normalisation is thrown away", floor=3),
+    RuleSpec("C15.R11", r11_computed_fields_are_not_options, "computed (init=False) fields are not options", floor=2),
     RuleSpec("C15.R9", r9_values_recorded_as_written, "values are recorded as written; TOML values stay native", floor=2),
 ]
